@@ -89,6 +89,11 @@ func checkTrunc(c truncCase) error {
 
 	lib.Truncate(c.Size)
 
+	// the OPT as Truncate left it (Pack writes the upper bits of an extended RCODE into its TTL)
+	optAfter := ""
+	if o := lib.IsEdns0(); o != nil {
+		optAfter = ident(o)
+	}
 	p, err := lib.Pack()
 	if err != nil {
 		return pbt.Errf("Pack after Truncate(%d) failed: %v", c.Size, err)
@@ -127,7 +132,29 @@ func checkTrunc(c truncCase) error {
 	if c.Size < 512 {
 		classes = append(classes, "size<512")
 	}
-	pbt.Note(append([]byte(fmt.Sprint(c.Size, c.TC)), w...), dropped > 0 && kept > 0 || len(p) >= S-2 && len(p) <= S+2, classes...)
+	// where header + question + OPT alone stand relative to the limit (a record is >= 11 octets:
+	// from limit-10 on not one record can stay)
+	switch {
+	case len(bw) > S:
+		classes = append(classes, "base>limit")
+	case len(bw) == S:
+		classes = append(classes, "base=limit")
+	case len(bw) > S-11:
+		classes = append(classes, "base-near-limit")
+	}
+	if len(bw) > S-11 && bOpts > 0 {
+		classes = append(classes, "base-heavy-with-opt")
+	}
+	if m.Rcode > 15 {
+		classes = append(classes, "ext-rcode")
+	}
+	if dropped > 0 && kept == 0 {
+		classes = append(classes, "all-dropped")
+	}
+	if len(bAn)+len(bNs)+len(bEx) == 0 && len(bw) > S {
+		classes = append(classes, "no-records-base>limit") // nothing to drop, the reply is just too big
+	}
+	pbt.Note(append([]byte(fmt.Sprint(c.Size, c.TC)), w...), dropped > 0 && kept > 0 || len(p) >= S-2 && len(p) <= S+2 || len(bw) > S-11, classes...)
 	if dropped > 0 && kept > 0 {
 		pbt.Sample("cut", fmt.Sprintf("size=%d: %d/%d/%d records -> %d/%d/%d, packed %d", c.Size, len(bAn), len(bNs), len(bEx), len(aAn), len(aNs), len(aEx), len(p)))
 	}
@@ -151,7 +178,7 @@ func checkTrunc(c truncCase) error {
 		return pbt.Errf("Truncate(%d): %d OPT records before, %d after", c.Size, bOpts, aOpts)
 	}
 	if bOpts == 1 {
-		if ident(orig.IsEdns0()) != ident(lib.IsEdns0()) {
+		if ident(orig.IsEdns0()) != optAfter {
 			return pbt.Errf("Truncate(%d): OPT record changed", c.Size)
 		}
 	}
@@ -281,6 +308,14 @@ func pickSize(t *rapid.T, m wm.Msg) int {
 	return s
 }
 
+// extRcode gives a quarter of the replies that carry an OPT an extended RCODE (RFC 6891 6.1.3: the
+// upper 8 bits live in the OPT record, so such a reply cannot be packed once the OPT is lost).
+func extRcode(t *rapid.T, m *wm.Msg) {
+	if m.Opt() >= 0 && rapid.IntRange(0, 3).Draw(t, "extrc") == 3 {
+		m.Rcode = rapid.SampledFrom([]int{16, 23, 22, 256, 4095, 17}).Draw(t, "extrcode")
+	}
+}
+
 func genPlain(t *rapid.T) truncCase {
 	max := 14
 	if pbt.Thorough() {
@@ -373,6 +408,7 @@ func genPlain(t *rapid.T) truncCase {
 			m.Ex = append(m.Ex[:pos:pos], append(opt, m.Ex[pos:]...)...)
 		}
 	}
+	extRcode(t, &m)
 	return truncCase{M: m, Size: pickSize(t, m), Plain: true, TC: rapid.IntRange(0, 4).Draw(t, "tc") == 0, Comp: rapid.IntRange(0, 3).Draw(t, "comp") == 0}
 }
 
@@ -417,6 +453,7 @@ func genAny(t *rapid.T) truncCase {
 		}
 		m.Ex = append(m.Ex, sig)
 	}
+	extRcode(t, &m)
 	return truncCase{M: m, Size: pickSize(t, m), TC: rapid.IntRange(0, 4).Draw(t, "tc") == 0, Comp: rapid.IntRange(0, 3).Draw(t, "comp") == 0}
 }
 
